@@ -168,4 +168,106 @@ theorem cbMem_q (i : CbInstr) (a : BitVec 16) (c : Option R8) (s : Cpu) (b : β)
     (cbMem i a c s b).1.q = if i.latchesQ then (cbMem i a c s b).1.f else 0 := by
   cases i <;> cases c <;> simp [cbMem, cbOp, applyF, Cpu.setF, CbInstr.latchesQ, setR8_q, setR8_f, hq]
 
+/-! ### the pending prefix is only ever set by the prefix-parking branch -/
+
+/-- the control fields an instruction of the main page may touch: only EI/DI (skipInt, iff) and HALT -/
+theorem setR8_ctl (p : Pfx) (r : R8) (x : BitVec 8) (s : Cpu) :
+    (setR8 p r x s).activePrefix = s.activePrefix := by
+  cases r <;> cases p <;> simp [setR8]
+
+theorem operandAddr_ap (p : Pfx) (s : Cpu) (b : β) : (operandAddr p s b).2.1.activePrefix = s.activePrefix := by
+  cases p <;> simp [operandAddr]
+
+theorem setIdx_ap (p : Pfx) (w : BitVec 16) (s : Cpu) : (s.setIdx p w).activePrefix = s.activePrefix := by
+  cases p <;> simp [Cpu.setIdx, Cpu.setHL, Cpu.setIX, Cpu.setIY]
+
+theorem setRP_ap (p : Pfx) (rp : RP) (w : BitVec 16) (s : Cpu) : (setRP p rp w s).activePrefix = s.activePrefix := by
+  cases rp <;> simp [setRP, Cpu.setBC, Cpu.setDE, setIdx_ap]
+
+theorem setRP2_ap (p : Pfx) (rp : RP2) (w : BitVec 16) (s : Cpu) : (setRP2 p rp w s).activePrefix = s.activePrefix := by
+  cases rp <;> simp [setRP2, Cpu.setBC, Cpu.setDE, Cpu.setAF, setIdx_ap]
+
+theorem exec_ap (v : Variant) (p : Pfx) (i : Instr) (s : Cpu) (b : β) :
+    (exec v p i s b).1.activePrefix = s.activePrefix := by
+  cases i with
+  | inc r => cases r <;> simp [exec, Cpu.setF, setR8_ctl, operandAddr_ap]
+  | dec r => cases r <;> simp [exec, Cpu.setF, setR8_ctl, operandAddr_ap]
+  | alu op r => cases r <;> simp [exec, execAlu, operandAddr_ap]
+  | ld d r => cases d <;> cases r <;> simp [exec, setR8_ctl, operandAddr_ap]
+  | ldRN r => cases r <;> cases p <;> simp [exec, setR8, fetchByte]
+  | djnz => simp only [exec]; split <;> simp
+  | jrcc c => simp only [exec]; split <;> simp
+  | retcc c => simp only [exec]; split <;> simp [pop16]
+  | callcc c => simp only [exec, execCall]; split <;> simp [push16, fetchByte]
+  | call => simp [exec, execCall, push16, fetchByte]
+  | ldNNA => cases v <;> simp [exec, fetchWord]
+  | outNA => cases v <;> simp [exec, fetchByte]
+  | _ => simp [exec, Cpu.setF, setRP_ap, setRP2_ap, setIdx_ap, fetchWord,
+      fetchByte, pop16, execAlu, push16]
+
+theorem execED_ap (i : EdInstr) (s : Cpu) (b : β) : (execED i s b).1.activePrefix = s.activePrefix := by
+  cases i with
+  | ldBlock d r => simp only [execED]; split <;> simp [Cpu.setF, Cpu.setBC, Cpu.setHL, Cpu.setDE]
+  | cpBlock d r => simp only [execED]; split <;> simp [Cpu.setF, Cpu.setBC, Cpu.setHL, Cpu.setDE]
+  | inBlock d r => simp only [execED]; split <;> simp [Cpu.setF, Cpu.setHL]
+  | outBlock d r => simp only [execED]; split <;> simp [Cpu.setF, Cpu.setHL]
+  | inC r => cases r <;> simp [execED, Cpu.setF, setR8]
+  | _ => simp [execED, Cpu.setF, Cpu.setHL, setRP_ap, fetchWord, pop16]
+
+theorem cbMem_ap (i : CbInstr) (a : BitVec 16) (c : Option R8) (s : Cpu) (b : β) :
+    (cbMem i a c s b).1.activePrefix = s.activePrefix := by
+  cases i <;> cases c <;> simp [cbMem, cbOp, applyF, Cpu.setF, setR8_ctl]
+
+theorem execIdxCB_ap (p : Pfx) (s : Cpu) (b : β) : (execIdxCB p s b).1.activePrefix = s.activePrefix := by
+  simp [execIdxCB, cbMem_ap, fetchByte]
+
+theorem execCB_ap (s : Cpu) (b : β) : (execCB s b).1.activePrefix = s.activePrefix := by
+  simp only [execCB]
+  split
+  · simp [cbMem_ap, fetchByte]
+  · generalize decodeCB _ = i
+    cases i <;> simp [cbOp, applyF, Cpu.setF, setR8_ctl, fetchByte]
+
+
+theorem afterIndexPrefix_inv (v : Variant) (p : Pfx) (s : Cpu) (b : β) (hs : s.activePrefix = .none) :
+    (afterIndexPrefix v p s b).1.activePrefix ≠ .none → (afterIndexPrefix v p s b).1.skipInt = true := by
+  simp only [afterIndexPrefix]
+  generalize decode (fetchByte 4 s b).1 = i
+  cases i <;> simp [exec_ap, execIdxCB_ap, stepQ, fetchByte, hs]
+
+theorem afterEDPrefix_ap (s : Cpu) (b : β) (hs : s.activePrefix = .none) :
+    (afterEDPrefix s b).1.activePrefix = .none := by
+  simp [afterEDPrefix, execED_ap, stepQ, fetchByte, hs]
+
+theorem fetchByte_ap (c : Nat) (s : Cpu) (b : β) : (fetchByte c s b).2.1.activePrefix = s.activePrefix := rfl
+
+theorem exec_stepQ_ap (v : Variant) (p : Pfx) (i : Instr) (s : Cpu) (b : β) (hs : s.activePrefix = .none) :
+    (exec v p i (stepQ s) b).1.activePrefix = .none := by
+  rw [exec_ap]; simpa [stepQ] using hs
+
+theorem execCB_stepQ_ap (s : Cpu) (b : β) (hs : s.activePrefix = .none) :
+    (execCB (stepQ s) b).1.activePrefix = .none := by
+  rw [execCB_ap]; simpa [stepQ] using hs
+
+/-- After the instruction part of any `emulate`, from any state whatsoever: a prefix is pending only
+if interrupts are held off for the next boundary. -/
+theorem execOne_inv (v : Variant) (s : Cpu) (b : β) :
+    (execOne v s b).1.activePrefix ≠ .none → (execOne v s b).1.skipInt = true := by
+  simp only [execOne]
+  split
+  · exact afterIndexPrefix_inv v .dd _ b rfl
+  · exact afterIndexPrefix_inv v .fd _ b rfl
+  · intro h; exact absurd (afterEDPrefix_ap _ b rfl) h
+  · intro h; exact absurd (execCB_stepQ_ap _ b rfl) h
+  · rename_i hap
+    have hf : (fetchByte 4 { s with r := incR s.r } b).2.1.activePrefix = .none := by
+      rw [fetchByte_ap]; exact hap
+    generalize decode (fetchByte 4 { s with r := incR s.r } b).1 = i
+    cases i
+    case pfxDD => exact afterIndexPrefix_inv v _ _ _ hf
+    case pfxFD => exact afterIndexPrefix_inv v _ _ _ hf
+    case pfxED => intro h; exact absurd (afterEDPrefix_ap _ _ hf) h
+    case pfxCB => intro h; exact absurd (execCB_stepQ_ap _ _ hf) h
+    all_goals (intro h; exact absurd (exec_stepQ_ap v _ _ _ _ hf) h)
+
 end ZxVerif.Z80
